@@ -1,7 +1,7 @@
 (* Conc/Check.v - executable checkers used by the correspondence suites of C16 and C20
    (harness/props/c16.py, c20.py).  No proofs here; the soundness of the boolean footprint
-   checkers with respect to the hypotheses of the C16 theorems is in ConcProofs.v
-   ([c16_footprints_sound]).  Literals written by the harness use Z everywhere. *)
+   checkers with respect to the hypotheses of the C16 theorems is in Conc/CheckSound.v
+   ([c16_footprints_sound], [c16_check_sound]).  Literals written by the harness use Z everywhere. *)
 From Coq Require Import ZArith List Bool Arith.
 From Catii Require Import Base.Cases Conc.Interleave Conc.Pool Conc.Interrupt.
 Import ListNotations.
@@ -50,18 +50,33 @@ Definition footprints_ok_b (shape : list nat) (coords : list (list Z)) (tasks : 
 
 (* one (cube, aggregates) configuration as observed on the implementation:
      shape   the extents of the extra axes
-     coords  per task (product order) its flattened sub-cube coordinates
-     tasks   per task the cells it touched when run ALONE on garbage-filled regions, with the
-             values it left there (identical under two different garbage fills)
+     coords  per task (product order) its flattened sub-cube coordinates, as the real product() hands
+             them to the task
+     tasks   per task the cells it touched when run ALONE on garbage-filled regions (item assignments
+             logged + cells whose content changed), with the values it left there
      init    every cell of the freshly created regions with its content
      fin_s   contents of all those cells (same order) when the real SERIAL run reaches reduce
      fin_p   the same for a real POOLED run under the deterministic scheduler
-     sched   a seeded schedule: task numbers in the order in which they take their next write *)
+     sched   the schedule observed in that pooled run: task numbers in the order in which they
+             performed their (final) write of a cell
+     flag    established on the Python side: the cells touched and the values left by every task were
+             identical under two different garbage fills (the task does not read the shared regions), and
+             every item assignment logged in the pooled run landed in a cell of the same task's
+             alone-run footprint *)
 Definition c16case : Type :=
-  (list Z * list (list Z) * list (list wlit) * list wlit * (list Z * list Z) * list Z)%type.
+  (list Z * list (list Z) * list (list wlit) * list wlit * (list Z * list Z) * list Z * bool)%type.
+
+Definition c16_tasks (c : c16case) : list (list (write Z)) :=
+  let '(shape, coords, tlits, init, (fin_s, fin_p), sched, flag) := c in map (map mk_write) tlits.
+Definition c16_cells (c : c16case) : list cell :=
+  let '(shape, coords, tlits, init, (fin_s, fin_p), sched, flag) := c in map wlit_cell init.
+Definition c16_init (c : c16case) : store Z :=
+  let '(shape, coords, tlits, init, (fin_s, fin_p), sched, flag) := c in store_of init.
+Definition c16_serial_final (c : c16case) : list Z :=
+  let '(shape, coords, tlits, init, (fin_s, fin_p), sched, flag) := c in fin_s.
 
 Definition c16_check (c : c16case) : bool :=
-  let '(shape, coords, tlits, init, (fin_s, fin_p), sched) := c in
+  let '(shape, coords, tlits, init, (fin_s, fin_p), sched, flag) := c in
   let tasks := map (map mk_write) tlits in
   let cs := map wlit_cell init in
   let s0 := store_of init in
@@ -69,17 +84,17 @@ Definition c16_check (c : c16case) : bool :=
   zlist_eqb (snapshot cs (run (concat tasks) s0)) fin_s &&
   zlist_eqb (snapshot cs (run (merge_by (map Z.to_nat sched) tasks) s0)) fin_s &&
   zlist_eqb (snapshot cs (run (concat (rev tasks)) s0)) fin_s &&
-  zlist_eqb fin_p fin_s.
+  zlist_eqb fin_p fin_s && flag.
 
 Definition c16_explain (c : c16case) :=
-  let '(shape, coords, tlits, init, (fin_s, fin_p), sched) := c in
+  let '(shape, coords, tlits, init, (fin_s, fin_p), sched, flag) := c in
   let tasks := map (map mk_write) tlits in
   let cs := map wlit_cell init in
   let s0 := store_of init in
   (coords_ok_b (map Z.to_nat shape) coords, forallb2 prefixed_b coords tasks,
    zlist_eqb (snapshot cs (run (concat tasks) s0)) fin_s,
    zlist_eqb (snapshot cs (run (merge_by (map Z.to_nat sched) tasks) s0)) fin_s,
-   zlist_eqb fin_p fin_s).
+   zlist_eqb fin_p fin_s, flag).
 
 (* ---------------- C20 ---------------- *)
 
